@@ -75,6 +75,8 @@ class BuiltinMixin(object):
                 for x in items[1:]:
                     r = self.call_builtin(BuiltinV(name), [r, x], {}, spec)
                 return r
+            if len(args) == 1 and "key" in kwargs and isinstance(args[0], RefV) and args[0].ty.base.kind == "list" and not spec:
+                return self.min_with_key(name, args[0], kwargs["key"])
             raise VerifError("%s with key / many arguments" % name)
         if name == "divmod":
             a, b = args
@@ -214,6 +216,28 @@ class BuiltinMixin(object):
         if name == "hasattr" or name == "getattr":
             raise VerifError("reflection (%s)" % name)
         raise VerifError("builtin %s not modelled" % name)
+
+    def min_with_key(self, name, lst, key):
+        """min/max(list, key=f): the FIRST element whose key is not exceeded by any other (CPython semantics)."""
+        ctx = self.ctx
+        n = ctx.list_len(lst)
+        if ctx.branch(n == 0):
+            raise RaiseSig(ExcV("ValueError"))
+        i = ctx.fresh("argmin", z3.IntSort())
+        j = z3.Int("j!q%d" % self.explorer.next_id())
+        op = "<" if name == "min" else ">"
+
+        def k(idx):
+            return self.call_value(key, [ctx.list_get(lst, idx)], {}, True)
+        better_than_i = self.as_bool_term(self.compare(op, k(j), k(i), True))
+        i_better_than_j = self.as_bool_term(self.compare(op, k(i), k(j), True))
+        ctx.assume(z3.And(0 <= i, i < n))
+        ctx.assume(z3.ForAll([j], z3.Implies(z3.And(0 <= j, j < n), z3.Not(better_than_i))))
+        ctx.assume(z3.ForAll([j], z3.Implies(z3.And(0 <= j, j < i), i_better_than_j)))
+        v = ctx.list_get(lst, i)
+        if isinstance(v, RefV):
+            ctx.assume_ref_typed(v)
+        return v
 
     def shallow_copy(self, v):
         ctx = self.ctx
